@@ -60,6 +60,8 @@ pub open spec fn vsub<A>(x: SMap<A, u64>, c: SMap<A, u64>) -> SMap<A, u64> {
 pub open spec fn vinter<A>(l: SMap<A, u64>, r: SMap<A, u64>) -> SMap<A, u64> {
     l.restrict(l.dom().filter(|a: A| cnt(r, a) == l[a]))
 }
+/// learn dot (a, n): insert iff strictly newer
+pub open spec fn vapp<A>(x: SMap<A, u64>, a: A, n: u64) -> SMap<A, u64> { if cnt(x, a) < n { x.insert(a, n) } else { x } }
 /// clock c covers dot (a, n)
 pub open spec fn covers<A>(c: SMap<A, u64>, a: A, n: u64) -> bool { cnt(c, a) >= n }
 
